@@ -150,6 +150,13 @@ func (s *MemData) Put(data []byte) string {
 	return ptr
 }
 
+// PutAs publishes raw bytes under the given pointer (restoring a saved store).
+func (s *MemData) PutAs(ptr string, data []byte) {
+	s.mu.Lock()
+	defer s.mu.Unlock()
+	s.files[ptr] = &memFile{data: data, published: true}
+}
+
 // Replace overwrites a published file's bytes (corruption experiments).
 func (s *MemData) Replace(ptr string, data []byte) {
 	s.mu.Lock()
